@@ -2,8 +2,9 @@ import Driver.Util
 /-! group `vol` (C01, C02, C05_vol, C20_vol), mirrored from harness/drv/vol.cpp -/
 namespace Driver
 open Op2 Op2.Vol
+namespace VolDrv
 
-def content? (s : String) : Option Content :=
+def content? (s : String) : Option Vol.Content :=
   match s.splitOn ":" with
   | ["z", n] => do let n ← n.toNat?; pure (.zeros n)
   | _ => do let b ← data? s; pure (.bytes b)
@@ -88,6 +89,8 @@ def member? : List String → Option (List Spec.Member)
       pure ({ name := n, payload := p, size := s, comp := c } :: t)
   | _ => none
 
+end VolDrv
+open VolDrv in
 def handleVol (cmd : String) (args : List String) : Option String :=
   match cmd, args with
   | "vol.pack", out :: _pre :: rest => do
